@@ -258,6 +258,21 @@ func init() {
 		after, _ := os.ReadFile(path)
 		return lerr != nil && serr == nil, fmt.Sprintf("LoadPolicy err=%v; SavePolicy err=%v; file now %q", lerr, serr, string(after))
 	}
+	// D31: a failed filtered load (memory already cleared / partly refilled) left the flag as it was
+	witnesses["D31-failed-filtered-load-unguarded"] = func() (bool, string) {
+		dir, _ := os.MkdirTemp("", "d31")
+		defer os.RemoveAll(dir)
+		path := dir + "/p.csv"
+		full := "p, alice, d, read\np, bob, d, read\n"
+		_ = os.WriteFile(path, []byte(full), 0o644)
+		a := fileadapter.NewFilteredAdapter(path)
+		e, _ := casbin.NewEnforcer(mustModel(rbacText), a)
+		_ = e.LoadPolicy()                              // a successful full load: not filtered
+		lerr := e.LoadFilteredPolicy([]string{"alice"}) // not a *Filter: refused, but memory is already cleared
+		serr := e.SavePolicy()
+		after, _ := os.ReadFile(path)
+		return lerr != nil && serr == nil && string(after) != full, fmt.Sprintf("LoadFilteredPolicy err=%v; SavePolicy err=%v; file now %q (was %q)", lerr, serr, string(after), full)
+	}
 	// D30: a rule whose priority does not parse was a barrier for the priority insertion
 	witnesses["D30-unparsable-priority-barrier"] = func() (bool, string) {
 		text := strings.Replace(strings.Replace(rbacText, "some(where (p.eft == allow))", "priority(p.eft) || deny", 1), "p = sub, obj, act", "p = priority, sub, obj, act, eft", 1)
